@@ -142,12 +142,12 @@ Definition transpile_label_matchers (re_full : string -> string -> bool) (h : hi
   if Z.eqb (h_step h) 0 then q else process_hints q h.
 
 (* ---------- the down-sampled path ---------- *)
-(* InitDownsamplePlanner.Process *)
+(* InitDownsamplePlanner.Process (timestamp_ns >= From since fix 24e9bdc; it was > From) *)
 Definition init_downsample (c : pctx) : select :=
   with_limit c
    (set_groupby [Id "timestamp_ms"; Id "fingerprint"]
     (set_orderby [Ord (Id "fingerprint") true; Ord (Id "timestamp_ms") true]
-     (and_where [Gt (Id "samples.timestamp_ns") (IntV (c_from_ns c));
+     (and_where [Ge (Id "samples.timestamp_ns") (IntV (c_from_ns c));
                  Le (Id "samples.timestamp_ns") (IntV (c_to_ns c)); get_types c]
       (set_from (SimpleCol (t_m15 c) "samples")
        (set_cols [SimpleCol "samples.fingerprint" "fingerprint";
